@@ -583,11 +583,14 @@ pub fn gen_file(t: &mut Tape, wide: bool, max_ops: u32) -> BtorFile {
     g.widths.push(1);
     for _ in 0..nw {
         let w = if wide {
-            match g.t.weighted(&[6, 2, 2, 1]) {
+            match g.t.weighted(&[6, 2, 2, 1, 2, 1]) {
                 0 => g.t.range(2, 8),
                 1 => g.t.range(31, 33),
                 2 => g.t.range(63, 65),
-                _ => g.t.range(127, 130),
+                3 => g.t.range(127, 130),
+                // everything between the boundary classes, and a few multi-word widths
+                4 => g.t.range(9, 126),
+                _ => *g.t.pick(&[131u32, 160, 192, 200, 255, 256, 257]),
             }
         } else {
             g.t.range(2, 4)
